@@ -341,12 +341,21 @@ impl Exec {
                     }
                 }
             }
-            "remove" => {
+            "remove" | "removekey" => {
                 if self.keys.is_empty() {
                     return;
                 }
-                let idx = args.first().and_then(|v| v.as_u64()).unwrap_or(0) as usize % self.keys.len();
-                let key = self.keys[idx];
+                let key = if name == "removekey" {
+                    // remove by key value (vectors derived from L2 behaviours name the key itself)
+                    let k = args.first().and_then(|v| v.as_i64()).unwrap_or(-1);
+                    if !self.keys.contains(&k) {
+                        return;
+                    }
+                    k
+                } else {
+                    let idx = args.first().and_then(|v| v.as_u64()).unwrap_or(0) as usize % self.keys.len();
+                    self.keys[idx]
+                };
                 let r = catch_unwind(AssertUnwindSafe(|| cut.op(Op::Remove(key))));
                 match r {
                     Ok(OpRes::Bool(b)) => {
@@ -476,7 +485,7 @@ pub fn run_vector(v: &Vector) -> String {
             "settle" => ex.settle(false),
             "settle_all" => ex.settle(true),
             "drop" => ex.drop_cut(),
-            "insert" | "remove" | "reserve" | "extend" => ex.group_op(name, &arr[1..], nscripts),
+            "insert" | "remove" | "removekey" | "reserve" | "extend" => ex.group_op(name, &arr[1..], nscripts),
             _ => {}
         }
     }
